@@ -687,7 +687,11 @@ def c04(sc, V):
             for pid, (st, pp) in a.kernel.items():
                 if pp == 0 and st == "r" and pid not in listed and pid not in orphaned_ok and pid in spawned and \
                         not _sigkilled_before(V, s.n, pid):
-                    f.append({"sig": "untracked-live-worker", "step": s.n, "msg": "pid %d (%s) is alive but no watcher lists it" % (pid, spawned[pid])})
+                    # F28: the detached socket-triggered start of an on-demand watcher goes on spawning after the watcher was removed
+                    od = any(c.get("on_demand") and c["name"].replace(" ", "_") == spawned[pid] for c in sc["watchers"]) and \
+                        any(x.kind() == "sockev" and x.op[1] for x in V[:s.n]) and any(x.cmd() == "rm" for x in V[:s.n])
+                    f.append({"sig": "untracked-live-worker@on-demand-start-overlap" if od else "untracked-live-worker", "step": s.n,
+                              "msg": "pid %d (%s) is alive but no watcher lists it" % (pid, spawned[pid])})
             if s.kind() == "check" and not any(l[0] == "conflict" for l in s.lines) and not a.stopping and \
                     not (s.n > 0 and V[s.n - 1].kind() == "fault"):
                 for pid, wn in listed.items():
